@@ -90,6 +90,10 @@ class Gen12:
         self.hist = {}
 
     def count(self, k): self.hist[k] = self.hist.get(k, 0) + 1
+    def name(self):
+        """fresh variable; the prefix is random, so the string order of the names is unrelated to the order of definition
+        (the bundling passes sort some of their variable sets and keep others in definition / hash order)"""
+        return f'{self.R.choice("zqmhcav")}{next(self.fresh)}'
     def lit(self, n): return str(n) if self.raw else f'fp.round({n})'
 
     def mark(self):
@@ -158,10 +162,10 @@ class Gen12:
             if k == 'assign' and vs:
                 out.append(f'{pad}{R.choice(vs)} = {self.real(env, 2)}')
             elif k in ('assign', 'new'):
-                x = f'v{next(self.fresh)}'
+                x = self.name()
                 out.append(f'{pad}{x} = {self.real(env, 2)}'); env[x] = 'R'
             elif k == 'tuple':
-                x, y = f'v{next(self.fresh)}', f'v{next(self.fresh)}'
+                x, y = self.name(), self.name()
                 out.append(f'{pad}{x}, {y} = ({self.real(env, 2)}, {self.real(env, 1)})'); env[x] = env[y] = 'R'
             elif k == 'list':
                 x = f'l{next(self.fresh)}'; n_el = R.randint(2, 4)
@@ -175,14 +179,15 @@ class Gen12:
                 env.update(env_in)
                 if len(self.stack) >= 1: self.count('with:nested')
             elif k == 'if':
-                x = f'v{next(self.fresh)}' if R.random() < 0.5 else None
+                xs = [self.name() for _ in range(R.choice([0, 0, 1, 1, 2, 3]))]   # variables introduced by both branches
                 c = self.cond(env, 1)
                 bt, _ = self.block(env, depth - 1, R.randint(1, 2), pad + '    ')
                 bf, _ = self.block(env, depth - 1, R.randint(1, 2), pad + '    ')
-                if x:   # a variable introduced by both branches
-                    bt.append(f'{pad}    {x} = {self.real(env, 1)}'); bf.append(f'{pad}    {x} = {self.real(env, 1)}')
+                for br in (bt, bf):     # … in an order of their own in each branch
+                    for x in R.sample(xs, len(xs)): br.append(f'{pad}    {x} = {self.real(env, 1)}')
                 out += [f'{pad}if {c}:'] + bt + [f'{pad}else:'] + bf
-                if x: env[x] = 'R'
+                for x in xs: env[x] = 'R'
+                self.count(f'if:introduced={len(xs)}')
             elif k == 'if1':
                 c = self.cond(env, 1)
                 bt, _ = self.block(env, depth - 1, R.randint(1, 2), pad + '    ')
@@ -245,8 +250,12 @@ class Gen12:
 
     def ret(self, env):
         R = self.R
-        if R.random() < 0.5 or self.loopfree: return self.real(env, 2)
-        return '(' + ', '.join(self.real(env, 1) for _ in range(R.randint(2, 3))) + ')'
+        if self.loopfree: return self.real(env, 2)
+        r = R.random()
+        if r < 0.35: return self.real(env, 2)
+        if r < 0.6: return '(' + ', '.join(self.real(env, 1) for _ in range(R.randint(2, 3))) + ')'
+        vs = [x for x, t in env.items() if t == 'R']       # every variable: an exchange of any two of them shows
+        return '(' + ', '.join(vs) + ', ' + self.real(env, 1) + ')'
 
 # ------------------------------------------------------------------ hand-written templates
 # (source, marks {constant: (es, nbits, round) | None}) — the classic scoping shapes
@@ -623,7 +632,17 @@ def run(rep, tier, seed):
         for src, marks in TEMPLATES:
             name = src.split('def ')[1].split('(')[0]
             fn = size_lists(getattr(tmod, name))
-            progs.append(('template:' + name, src, fn, marks, 'xs' in src.split(':\n')[0], False, fn.ast.ctx))
+            progs.append(('template:' + name, src, fn, marks, 'xs' in src.split(':\n')[0], False, fn.ast.ctx, None))
+        # the systematic corpus for the bundling passes (corpus/c12_bundles.py): every run sees every shape
+        corp = load_module(os.path.join(os.path.dirname(os.path.abspath(__file__)), 'corpus', 'c12_bundles.py'), f'fpyverif_c12_{seed}_bundles_gen')
+        bundles = corp.bundle_programs(thorough=(tier != 'quick'))
+        bpath = os.path.join(tmp, 'bundles.py')
+        with open(bpath, 'w') as fh: fh.write('import fpy2 as fp\n\n' + '\n'.join(s_ for _, s_, _ in bundles))
+        bmod = load_module(bpath, f'fpyverif_c12_{seed}_bundles')
+        for name, src, fixed in bundles:
+            fn = getattr(bmod, name)
+            progs.append(('bundle:' + name, src, fn, {}, False, False, fn.ast.ctx, fixed))
+        rep.cov['bundling_corpus_programs'] = len(bundles)
         for pi in range(nprog):
             loopfree = pi % 3 == 0
             G = Gen12(R, raw_ints=(R.random() < 0.5 and not loopfree), loopfree=loopfree)
@@ -637,13 +656,13 @@ def run(rep, tier, seed):
                 continue
             fn = size_lists(getattr(mod, f'g{pi}'))
             for k, v in G.hist.items(): rep.count('gen:' + k, v)
-            progs.append((f'gen:g{pi}', src, fn, G.marks, has_list, G.raw, fn.ast.ctx))
+            progs.append((f'gen:g{pi}', src, fn, G.marks, has_list, G.raw, fn.ast.ctx, None))
 
         titan = Interpreter()
         # titanfp cannot index an EMPTY tensor (`range(0)`): same workaround as the repository's tests/infra/fpcore/shim.py
         _check_offset = ndarray.check_offset
         ndarray.check_offset = lambda data, shape, start, strides: None if any(d == 0 for d in shape) else _check_offset(data, shape, start, strides)
-        for label, src, fn, marks, has_list, raw, declared in progs:
+        for label, src, fn, marks, has_list, raw, declared, fixed in progs:
             rep.cov['programs'] += 1
             try:
                 core, unsafe = timed(lambda: compile_real(fn, raw), 20)
@@ -703,7 +722,8 @@ def run(rep, tier, seed):
             except Unsupported as e:
                 core_line_ok = False; rep.count('lean-fpcore-unsupported:' + str(e)[:40])
             # ---- (a)/(b) evaluation
-            for args in gen_args(R, has_list, ninputs, declared if isinstance(declared, fp.Context) else None):
+            arglist = gen_args(R, has_list, ninputs, declared if isinstance(declared, fp.Context) else None) if fixed is None else (list(fixed) + gen_args(R, False, 1))
+            for args in arglist:
                 F = observe(lambda: fn(*[list(a) if isinstance(a, list) else a for a in args]))
                 if not F.startswith('ok'):
                     rep.count('fpy:' + F.split(':')[0][:40]); continue
